@@ -462,12 +462,40 @@ def body_C14(ctx):
     if diffs:
         ctx.k1_diffs += diffs
         ctx.broken.append(("K1 generator correspondence (round-trip programs)", [d.to_json() for d in diffs[:3]]))
+    # K1-parse: the parser model (Parse.lean, with syn's answers for each input) vs the real parser, on the round-trip
+    # programs, the operator/wrapper/option/handler/let families, the malformed list and mutated programs
+    items = [(rng.pick(G.KINDS), s, "operators") for s in G.fam_operators()[:: (4 if ctx.quick() else 1)]]
+    items += [(rng.pick(G.KINDS), s, "pairs") for s in G.fam_pairs()[:: (4 if ctx.quick() else 1)]]
+    items += [(rng.pick(G.KINDS), s, "wrappers") for s in G.fam_wrappers()]
+    items += [(k, s, "options") for k in ("a0t0s0", "a1t1s0") for s in G.fam_options(k)[:: (3 if ctx.quick() else 1)]]
+    items += [(rng.pick(G.KINDS), s, "handlers") for s in G.fam_handlers()]
+    items += [(rng.pick(G.KINDS), s, "lets") for s in G.fam_lets()]
+    items += [(rng.pick(G.KINDS), s, "malformed") for s in G.MALFORMED]
+    for _ in range(300 if ctx.quick() else 6000):
+        kind = rng.pick(G.KINDS)
+        src = G.random_program(rng, kind)
+        items.append((kind, src, "random"))
+        items.append((kind, G.mutate(rng, src), "mutated"))
+        items.append((kind, G.mutate(rng, G.mutate(rng, src)), "mutated"))
+        items.append((kind, G.mutate(rng, R.random_prog(rng).render()), "mutated"))
+    extra = k1.run_real(corpus_cases() + mk_cases(items), with_oracle=True)
+    ctx.evals += len(extra)
+    for r in extra:
+        ctx.dist["family:" + r.family] += 1
+        ctx.dist["parse:" + k1.parse_class(r.parse)] += 1
+    np_, pdiffs = k1.compare_parse(list(reals) + extra)
+    ctx.out.coverage["k1_parse_compared"] = np_
+    if pdiffs:
+        ctx.broken.append(("K1-parse: parser model (Parse.lean) vs real parser", [dict(d.to_json(), model=(d.model_out or "")[:600]) for d in pdiffs[:3]]))
     # the determiner table model vs the real check_input (longest documented operator wins)
     table_probes(ctx)
     ctx.out.coverage["rule"] = ("structured programs (22 operators, ~, >>>/<<<, let, handlers at any position) over 39 adversarial operand "
                                 "shapes (closure return types, turbofish, generic `>>`, look-alikes inside parentheses/brackets/braces/macro "
-                                "calls/literals), rendered to source and parsed by the real parser: the dumped structure must equal the one "
-                                "rendered from; every (operator, operand, following operator) triple; determiner probes (17k) model vs real")
+                                "calls/literals, Rust's own shift/comparison/logic operators), rendered to source and parsed by the real parser: "
+                                "the dumped structure must equal the one rendered from; every (operator, operand, following operator) triple; "
+                                "K1-parse: the Lean parser model, given syn's answers, vs the real parser (outcome class and structure) on those "
+                                "programs plus operator/wrapper/option/handler/let families, the malformed list and mutated programs; "
+                                "determiner probes (17k) model vs real")
 
 
 def body_C04(ctx):
@@ -833,7 +861,7 @@ PROPS = {
     "C12": ("JoinModel.Props.C12", body_C12),
     "C13": ("JoinModel.Props.C13", body_C13),
     "C18": ("JoinModel.Props.C18", body_C18),
-    "C14": ("JoinModel.Props.C01", body_C14),
+    "C14": ("JoinModel.Props.C14", body_C14),
     "C15": ("JoinModel.Props.C15", body_C15),
     "C05": ("JoinModel.Props.C05", body_C05),
     "C07": ("JoinModel.Props.C07", body_C07),
